@@ -55,6 +55,63 @@ class Unk(object):
     def __invert__(self):
         return Unk(('not', self.expr))
 
+    def flat_get(self, a):
+        """table[index] where the index is integer arithmetic over undetermined truth values (`2 * [p] + [q]`): the entry
+        for every outcome of the truth values, as a choice between the entries"""
+        leaves, keys = [], []
+
+        def collect(e):
+            if isinstance(e, Unk):
+                return collect(e.expr)
+            if isinstance(e, (bool, int)):
+                return
+            if isinstance(e, tuple) and e and e[0] == 'fn' and e[1] in ('add', 'subtract', 'multiply', 'logical_not',
+                                                                         'logical_and', 'logical_or'):
+                for x in e[2:]:
+                    collect(x)
+                return
+            if isinstance(e, tuple) and e and e[0] in ('cmp', 'not', 'and', 'or'):
+                k = repr(Unk(e))
+                if k not in keys:
+                    keys.append(k)
+                    leaves.append(e)
+                return
+            raise AnalysisError('non concrete array index %r' % (self,))
+
+        def value(e, env):
+            if isinstance(e, Unk):
+                return value(e.expr, env)
+            if isinstance(e, (bool, int)):
+                return int(e)
+            if e[0] == 'fn':
+                vs = [value(x, env) for x in e[2:]]
+                if e[1] == 'add':
+                    return vs[0] + vs[1]
+                if e[1] == 'subtract':
+                    return vs[0] - vs[1]
+                if e[1] == 'multiply':
+                    return vs[0] * vs[1]
+                if e[1] == 'logical_not':
+                    return int(not vs[0])
+                if e[1] == 'logical_and':
+                    return int(bool(vs[0]) and bool(vs[1]))
+                return int(bool(vs[0]) or bool(vs[1]))
+            return int(env[repr(Unk(e))])
+        collect(self.expr)
+        if not leaves or len(leaves) > 4:
+            raise AnalysisError('non concrete array index %r' % (self,))
+
+        def build(k, env):
+            if k == len(leaves):
+                ii = value(self.expr, env)
+                if ii < -a.size or ii >= a.size:
+                    raise AnalysisError('array index %d out of bounds on one outcome of %r' % (ii, self))
+                return a.buf.data[a.pos[ii]]
+            yes = build(k + 1, dict(env, **{keys[k]: True}))
+            no = build(k + 1, dict(env, **{keys[k]: False}))
+            return _same_or_choice(Unk(leaves[k]), yes, no)
+        return build(0, {})
+
     def any(self, *a, **k):
         return self
 
@@ -826,6 +883,10 @@ class Choice(object):
 
     def map(self, fn):
         return _same_or_choice(self.cond, fn(self.a), fn(self.b))
+
+    def flat_get(self, arr):
+        # table[index] with an index that is one of two, depending on an undetermined condition
+        return _same_or_choice(self.cond, flat_get(arr, self.a), flat_get(arr, self.b))
 
 
 def mk_choice(cond, a, b):
